@@ -91,11 +91,14 @@ pub struct Params {
     /// 0 = never; else 1/n chance per step of a legal spurious wake-up
     pub spurious_den: u32,
     pub victim: usize,
+    /// events due at the same simulated time fire in the order they were scheduled instead of in a
+    /// drawn order (used where two executions must see identical timing)
+    pub fifo_ties: bool,
 }
 
 impl Default for Params {
     fn default() -> Self {
-        Params { policy: Policy::Fifo, batch_mode: 0, spurious_den: 0, victim: usize::MAX }
+        Params { policy: Policy::Fifo, batch_mode: 0, spurious_den: 0, victim: usize::MAX, fifo_ties: false }
     }
 }
 
@@ -245,7 +248,7 @@ pub fn draw_params() -> Params {
         _ => 4,
     };
     let victim = if policy == Policy::Starve { draw(6) as usize } else { usize::MAX };
-    let p = Params { policy, batch_mode, spurious_den, victim };
+    let p = Params { policy, batch_mode, spurious_den, victim, fifo_ties: false };
     set_params(p);
     p
 }
@@ -522,7 +525,7 @@ fn fire_next_event(only_due: bool) -> bool {
             return None;
         }
         let keys: Vec<(u64, u64)> = s.events.range((at0, 0)..=(at0, u64::MAX)).map(|(k, _)| *k).collect();
-        let idx = if keys.len() > 1 { s.tape.draw(keys.len() as u32) as usize } else { 0 };
+        let idx = if keys.len() > 1 && !s.params.fifo_ties { s.tape.draw(keys.len() as u32) as usize } else { 0 };
         let key = keys[idx];
         let ev = s.events.remove(&key).unwrap();
         if at0 > s.now {
